@@ -1,12 +1,13 @@
 package main
 
 // C13: the feeder only asks the witness for a justified step.
+// FeedOnce is explored with submitToWitness inlined and backoff.Retry modelled as one synchronous run of its
+// function argument, so the rules see real bindings (FeedOnce's own ctx and opts) however the retry body is
+// packaged (closure, method value, named function).
 
 import (
 	"fmt"
 	"go/types"
-
-	"golang.org/x/tools/go/ssa"
 )
 
 const (
@@ -18,125 +19,93 @@ const (
 	cPermanent = "github.com/cenkalti/backoff/v4.Permanent"
 )
 
-type feederCtx struct {
-	submit  *ssa.Function
-	closure *ssa.Function
-	bind    map[string]*Term // free variable name -> what submitToWitness bound it to
-	retry   Event
-	sum     Summary
-}
-
-func feederContext(w *World, r *Run, rule string) (*feederCtx, bool) {
-	sums, _, ok := explore(w, r, rule, fnSubmit, 0, 1)
-	if !ok {
-		return nil, false
+func ruleFeeder(w *World, r *Run) {
+	fn := w.fn(fnFeedOnce)
+	if fn == nil {
+		r.Undecided("C13.a", fnFeedOnce, "", "anchor not found")
+		return
 	}
-	if len(sums) != 1 {
-		r.Undecided(rule, fnSubmit, "", fmt.Sprintf("%d paths through submitToWitness, expected a single straight-line path", len(sums)))
-		return nil, false
+	e := w.engine(8, 1)
+	e.hof[cRetry] = 0
+	sums := e.Explore(fn)
+	r.Analysed(fnFeedOnce+" (retry body inlined)", len(sums))
+	for _, s := range sums {
+		if s.Trunc != "" {
+			r.Undecided("C13.a", fnFeedOnce, "", "path enumeration truncated: "+s.Trunc)
+			return
+		}
 	}
-	s := sums[0]
-	rt := calls(s, cRetry)
-	if len(rt) != 1 || len(rt[0].Args) != 2 || rt[0].Args[0].Kind != "closure" {
-		r.Undecided(rule, fnSubmit+" | backoff.Retry(closure, …)", "", "retry idiom not recognised")
-		return nil, false
-	}
-	fc := &feederCtx{submit: w.fn(fnSubmit), retry: rt[0], sum: s, bind: map[string]*Term{}}
-	cl := rt[0].Args[0]
-	fc.closure = w.funcs[cl.Name]
-	if fc.closure == nil {
-		r.Undecided(rule, fnSubmit, "", "closure function not found")
-		return nil, false
-	}
-	for i, fv := range fc.closure.FreeVars {
-		if i < len(cl.Args) {
-			b := cl.Args[i]
-			if b.Kind == "alloc" {
-				if v, ok := rt[0].Binds[b.key]; ok {
-					fc.bind[fv.Name()] = v
-				} else {
-					fc.bind[fv.Name()] = mk("zero", "", 0, nil)
-				}
-				fc.bind["&"+fv.Name()] = b
-			} else {
-				fc.bind[fv.Name()] = b
+	ctx, opts := paramN(fn, 0), paramN(fn, 1)
+	of := func(n string) *Term { return mk("field", n, 0, nil, opts) }
+	wit, logID, origin, sigv := of("Witness"), of("LogID"), of("LogOrigin"), of("LogSigVerifier")
+	notExist := mk("global", "os.ErrNotExist", 0, nil)
+	zeroI := mk("const", "0", 0, types.Typ[types.Int])
+	nUpd, nAhead, nOK, nSub := 0, 0, 0, 0
+	for _, s := range sums {
+		// the checkpoint fetched in this cycle
+		var fc *Event
+		for i := range s.Events {
+			ev := s.Events[i]
+			if ev.Kind == "call" && ev.Callee == "dyn" && ev.Recv == of("FetchCheckpoint") {
+				fc = &s.Events[i]
 			}
 		}
-	}
-	return fc, true
-}
-
-func fvDeref(fn *ssa.Function, name string) *Term {
-	for _, fv := range fn.FreeVars {
-		if fv.Name() == name {
-			return mk("deref", "", 0, nil, mk("freevar", fv.Name(), 0, fv.Type()))
+		success := len(s.Rets) == 2 && s.Rets[1].Kind == "nil"
+		rt := calls(s, cRetry)
+		if fc == nil || len(rt) == 0 {
+			// nothing was submitted on this path
+			r.Check(!success && len(calls(s, cFeederUpdate)) == 0, "C13.e", fnFeedOnce+" | success only after a submission", w.pos(s.RetPos), "FeedOnce reports success (or updates the witness) without going through the retrying submission")
+			continue
 		}
-	}
-	return nil
-}
-
-func fvField(fn *ssa.Function, name, field string) *Term {
-	for _, fv := range fn.FreeVars {
-		if fv.Name() == name {
-			return mk("field", field, 0, nil, mk("freevar", fv.Name(), 0, fv.Type()))
+		nSub++
+		cpRaw := res(*fc, 0)
+		// ---- C13.a VERIFY-BEFORE-SUBMIT
+		var pSub *Event
+		for _, pe := range calls(s, cParse) {
+			pe := pe
+			if pe.Seq < rt[0].Seq && len(pe.Args) == 4 && pe.Args[0] == cpRaw && okBefore(s, pe, rt[0].Seq) {
+				pSub = &pe
+			}
 		}
-	}
-	return nil
-}
-
-func ruleFeeder(w *World, r *Run) {
-	fc, ok := feederContext(w, r, "C13.d")
-	if !ok {
-		return
-	}
-	sub := fc.submit
-	pCtx, pRaw, pSubmit, pOpts := paramN(sub, 0), paramN(sub, 1), paramN(sub, 2), paramN(sub, 3)
-	// ---- bindings: the closure sees submitToWitness's own parameters
-	key := fnSubmit + " | closure captures (ctx, cpRaw, cpSubmit, opts) of this call"
-	good := fc.bind["ctx"] == pCtx && fc.bind["cpRaw"] == pRaw && fc.bind["cpSubmit"] == pSubmit && fc.bind["opts"] == pOpts
-	r.Check(good, "C13.b", key, w.pos(fc.retry.Pos), fmt.Sprintf("closure bindings: ctx=%v cpRaw=%v cpSubmit=%v opts=%v", fc.bind["ctx"], fc.bind["cpRaw"], fc.bind["cpSubmit"], fc.bind["opts"]))
-	// ---- C13.d RETRY-TO-CONTEXT
-	wc := calls(fc.sum, cWithCtx)
-	good = len(wc) == 1 && len(wc[0].Args) == 2 && wc[0].Args[1] == pCtx && fc.retry.Args[1] == wc[0].Res
-	r.Check(good, "C13.d", fnSubmit+" | retry bound to the caller's context", w.pos(fc.retry.Pos), "backoff.Retry is not driven by backoff.WithContext(…, ctx) of the caller's context: the feeder would not stop when its context ends")
-	// ---- C13.e RESULT
-	rc := fc.bind["&returnCp"]
-	good = rc != nil && len(fc.sum.Rets) == 2 && fc.sum.Rets[0].Kind == "out" && fc.sum.Rets[0].Args[1] == rc && fc.sum.Rets[1] == fc.retry.Res
-	r.Check(good, "C13.e", fnSubmit+" | returns (cell written by the closure, Retry's error)", w.pos(fc.sum.RetPos), "submitToWitness does not return the checkpoint cell the retry closure fills and Retry's verdict")
-
-	// ---- the closure as a root of its own
-	cl := fc.closure
-	sums, e, ok := exploreFn(w, r, "C13.b", cl, 4, 1)
-	if !ok {
-		return
-	}
-	ctxT := fvDeref(cl, "ctx")
-	rawT := fvDeref(cl, "cpRaw")
-	subT := fvDeref(cl, "cpSubmit")
-	if pt, isPtr := typeOfFV(cl, "cpSubmit").(*types.Pointer); isPtr {
-		_ = pt
-	}
-	logID := fvField(cl, "opts", "LogID")
-	origin := fvField(cl, "opts", "LogOrigin")
-	sigv := fvField(cl, "opts", "LogSigVerifier")
-	wit := fvField(cl, "opts", "Witness")
-	fetch := fvField(cl, "opts", "FetchProof")
-	retCell := mk("freevar", "returnCp", 0, typeOfFV(cl, "returnCp"))
-	notExist := mk("global", "os.ErrNotExist", 0, nil)
-	nUpd, nAhead, nOK := 0, 0, 0
-	subSize := mk("field", "Size", 0, nil, mk("freevar", "cpSubmit", 0, typeOfFV(cl, "cpSubmit")))
-	subHash := mk("field", "Hash", 0, nil, mk("freevar", "cpSubmit", 0, typeOfFV(cl, "cpSubmit")))
-	for _, s := range sums {
-		gl := calls(s, cFeederGetLatest)
-		if len(gl) != 1 || gl[0].Recv != wit || len(gl[0].Args) != 2 || gl[0].Args[0] != ctxT || gl[0].Args[1] != logID {
-			r.Fail("C13.b", cl.String()+" | asks the witness for its latest checkpoint of this log first", w.pos(s.RetPos), "attempt does not start with Witness.GetLatestCheckpoint(ctx, opts.LogID)")
+		good := pSub != nil && pSub.Args[1] == origin && pSub.Args[2] == sigv && (pSub.Args[3].Kind == "nil" || len(pSub.Args[3].Args) == 0) && okBefore(s, *fc, rt[0].Seq)
+		r.Check(good, "C13.a", fnFeedOnce+" | submits only bytes that verified under the log's key and origin", w.pos(rt[0].Pos), "the retrying submission starts on a path where the fetched bytes were not successfully parsed under opts.LogOrigin/opts.LogSigVerifier; path: "+pathString(e, s))
+		if pSub == nil {
+			continue
+		}
+		subT := mk("deref", "", 0, nil, res(*pSub, 0))
+		subSize := mk("field", "Size", 0, nil, subT)
+		subHash := mk("field", "Hash", 0, nil, subT)
+		// ---- C13.d RETRY-TO-CONTEXT
+		wc := calls(s, cWithCtx)
+		good = len(rt) == 1 && len(wc) == 1 && len(wc[0].Args) == 2 && wc[0].Args[1] == ctx && rt[0].Args[1] == wc[0].Res
+		r.Check(good, "C13.d", fnFeedOnce+" | retry bound to the caller's context", w.pos(rt[0].Pos), "backoff.Retry is not driven by backoff.WithContext(…, ctx) of the caller's context: the feeder would not stop when its context ends")
+		// the value one attempt returned
+		var opRet *Term
+		for _, ev := range s.Events {
+			if ev.Kind == "hofret" && ev.Callee == cRetry && len(ev.Args) == 1 {
+				opRet = ev.Args[0]
+			}
+		}
+		if opRet == nil {
+			r.Undecided("C13.b", fnFeedOnce+" | retry body", w.pos(rt[0].Pos), "the function handed to backoff.Retry could not be resolved and inlined")
+			continue
+		}
+		var after []Event // events of the attempt
+		for _, ev := range s.Events {
+			if ev.Seq > rt[0].Seq {
+				after = append(after, ev)
+			}
+		}
+		att := Summary{Events: after, Facts: s.Facts, Rets: s.Rets}
+		gl := calls(att, cFeederGetLatest)
+		if len(gl) != 1 || gl[0].Recv != wit || len(gl[0].Args) != 2 || gl[0].Args[0] != ctx || gl[0].Args[1] != logID {
+			r.Fail("C13.b", fnFeedOnce+" | each attempt first asks the witness for its latest checkpoint of this log", w.pos(rt[0].Pos), "attempt does not start with Witness.GetLatestCheckpoint(ctx, opts.LogID)")
 			continue
 		}
 		g := gl[0]
 		latestRaw := res(g, 0)
-		// latest checkpoint: parsed under the log's origin and verifier, or absent
 		var pc *Event
-		for _, pe := range calls(s, cParse) {
+		for _, pe := range calls(att, cParse) {
 			pe := pe
 			if len(pe.Args) == 4 && pe.Args[0] == latestRaw {
 				pc = &pe
@@ -148,55 +117,50 @@ func ruleFeeder(w *World, r *Run) {
 			hasLatest = true
 			latest = mk("deref", "", 0, nil, res(*pc, 0))
 			okp := pc.Args[1] == origin && pc.Args[2] == sigv && (pc.Args[3].Kind == "nil" || len(pc.Args[3].Args) == 0)
-			r.Check(okp, "C13.b", cl.String()+" | witness's latest verified under the log's origin and key", w.pos(pc.Pos), "the witness's checkpoint is parsed with "+short(fmt.Sprint(pc.Args[1:])))
+			r.Check(okp, "C13.b", fnFeedOnce+" | witness's latest verified under the log's origin and key", w.pos(pc.Pos), "the witness's checkpoint is parsed with "+short(fmt.Sprint(pc.Args[1:])))
 		}
-		// failure classification (C13.d): transient failures are plain errors, only 'ahead' is permanent
-		upds := calls(s, cFeederUpdate)
-		ret := s.Rets[0]
+		upds := calls(att, cFeederUpdate)
 		if len(upds) == 0 {
 			switch {
-			case ret.Kind == "call" && ret.Name == cPermanent:
+			case opRet.Kind == "call" && opRet.Name == cPermanent:
 				nAhead++
 				ahead := hasLatest && implies(s.Facts, "<", subSize, mk("field", "Size", 0, nil, latest), true)
-				r.Check(ahead, "C13.c", cl.String()+" | permanent error only when the witness is ahead", w.pos(s.RetPos), "a permanent (non-retried) error is returned on a path that did not establish witness size > log size; path: "+pathString(e, s))
-			case ret.Kind == "nil":
-				r.Fail("C13.e", cl.String()+" | success only after Update", w.pos(s.RetPos), "attempt reports success without having submitted anything; path: "+pathString(e, s))
+				r.Check(ahead, "C13.c", fnFeedOnce+" | permanent error only when the witness is ahead", w.pos(g.Pos), "a permanent (non-retried) error is returned on a path that did not establish witness size > log size; path: "+pathString(e, s))
+			case opRet.Kind == "nil":
+				r.Fail("C13.e", fnFeedOnce+" | attempt succeeds only after Update", w.pos(g.Pos), "an attempt reports success without having submitted anything; path: "+pathString(e, s))
 			default:
-				r.Check(neverNil(ret), "C13.d", cl.String()+" | transient failure is a plain retryable error", w.pos(s.RetPos), "failure path returns "+short(ret.String()))
+				r.Check(neverNil(opRet), "C13.d", fnFeedOnce+" | transient failure is a plain retryable error", w.pos(g.Pos), "failure path of the attempt returns "+short(opRet.String()))
 			}
-			// NotFound → no checkpoint yet (C13.f): proceeding without latest only under errors.Is(err, os.ErrNotExist) or err == nil
+			r.Check(!success, "C13.e", fnFeedOnce+" | no success without Update", w.pos(s.RetPos), "FeedOnce succeeds although no Update was made")
 			continue
 		}
 		if len(upds) != 1 {
-			r.Fail("C13.b", cl.String()+" | one Update per attempt", w.pos(s.RetPos), "more than one Update in a single attempt")
+			r.Fail("C13.b", fnFeedOnce+" | one Update per attempt", w.pos(s.RetPos), "more than one Update in a single attempt")
 			continue
 		}
 		nUpd++
 		u := upds[0]
-		// the get-latest error was nil or affirmatively 'does not exist'
+		// ---- C13.f: proceeding without a latest checkpoint only on nil error or 'does not exist'
 		kE, eNil, _ := nilFact(s, res(g, 1))
 		proceedOK := kE && eNil
-		if kE && !eNil {
-			for _, ie := range calls(s, cErrorsIs) {
-				if len(ie.Args) == 2 && ie.Args[0] == res(g, 1) && ie.Args[1] == notExist {
-					if k, v, _ := boolFact(s, ie.Res); k && v {
-						proceedOK = true
-					}
+		for _, ie := range calls(att, cErrorsIs) {
+			if len(ie.Args) == 2 && ie.Args[0] == res(g, 1) && ie.Args[1] == notExist {
+				if k, v, _ := boolFact(s, ie.Res); k && v {
+					proceedOK = true
 				}
 			}
-			if k, v, _ := eqFact(s, res(g, 1), notExist); k && v {
-				proceedOK = true
-			}
 		}
-		r.Check(proceedOK, "C13.f", cl.String()+" | proceeds without a latest checkpoint only on 'does not exist'", w.pos(u.Pos), "Update is reached although GetLatestCheckpoint failed with something other than os.ErrNotExist (a transient witness failure would be treated as first use); path: "+pathString(e, s))
-		// without a parsed latest the raw bytes must be empty
+		if k, v, _ := eqFact(s, res(g, 1), notExist); k && v {
+			proceedOK = true
+		}
+		r.Check(proceedOK, "C13.f", fnFeedOnce+" | proceeds without a latest checkpoint only on 'does not exist'", w.pos(u.Pos), "Update is reached although GetLatestCheckpoint failed with something other than os.ErrNotExist (a transient witness failure would be treated as first use); path: "+pathString(e, s))
 		if !hasLatest {
 			ln := mk("len", "", 0, types.Typ[types.Int], latestRaw)
-			emp := implies(s.Facts, "<", mk("const", "0", 0, types.Typ[types.Int]), ln, false)
-			r.Check(emp, "C13.b", cl.String()+" | latest ignored only when empty", w.pos(u.Pos), "Update is reached with a non-empty latest checkpoint that was not parsed/verified")
+			emp := implies(s.Facts, "<", zeroI, ln, false)
+			r.Check(emp, "C13.b", fnFeedOnce+" | latest ignored only when empty", w.pos(u.Pos), "Update is reached with a non-empty latest checkpoint that was not parsed/verified")
 		}
-		// ---- arguments
-		keyU := cl.String() + " | Update(ctx, log ID, size of the witness's latest, fetched checkpoint, proof from latest to it)"
+		// ---- C13.b ANCHORED-ARGS
+		keyU := fnFeedOnce + " | Update(ctx, log ID, size of the witness's latest, fetched checkpoint, proof from latest to it)"
 		if len(u.Args) != 5 || u.Recv != wit {
 			r.Fail("C13.b", keyU, w.pos(u.Pos), "unexpected Update call shape")
 			continue
@@ -206,29 +170,27 @@ func ruleFeeder(w *World, r *Run) {
 			wantOld = mk("field", "Size", 0, nil, latest)
 		}
 		oldOK := (hasLatest && u.Args[2] == wantOld) || (!hasLatest && (u.Args[2].Kind == "zero" || (u.Args[2].Kind == "const" && u.Args[2].Name == "0")))
-		argsOK := u.Args[0] == ctxT && u.Args[1] == logID && oldOK && u.Args[3] == rawT
+		argsOK := u.Args[0] == ctx && u.Args[1] == logID && oldOK && u.Args[3] == cpRaw
 		if !argsOK {
-			r.Fail("C13.b", keyU, w.pos(u.Pos), "Update is called with ("+short(fmt.Sprint(u.Args))+"): old size must be the size of the latest checkpoint the witness reported in this attempt (0 if none) and the checkpoint must be the fetched bytes; path: "+pathString(e, s))
+			r.Fail("C13.b", keyU, w.pos(u.Pos), "Update is called with ("+short(fmt.Sprint(u.Args))+"): old size must be the size of the latest checkpoint the witness reported in this attempt (0 if none) and the checkpoint must be the bytes fetched and verified in this cycle; path: "+pathString(e, s))
 			continue
 		}
-		// proof
 		proof := u.Args[4]
 		var fp *Event
-		for _, ev := range s.Events {
-			ev := ev
-			if ev.Kind == "call" && ev.Callee == "dyn" && ev.Recv == fetch {
-				fp = &ev
+		for i := range after {
+			ev := after[i]
+			if ev.Kind == "call" && ev.Callee == "dyn" && ev.Recv == of("FetchProof") {
+				fp = &after[i]
 			}
 		}
 		switch {
 		case fp != nil && proof == res(*fp, 0):
-			fromOK := len(fp.Args) == 3 && fp.Args[0] == ctxT && fp.Args[2] == subT && ((hasLatest && fp.Args[1] == latest) || (!hasLatest && (fp.Args[1].Kind == "zero" || fp.Args[1].Kind == "structval")))
-			r.Check(fromOK && okBefore(s, *fp, u.Seq), "C13.b", cl.String()+" | proof requested from exactly the witness's latest to the submitted checkpoint", w.pos(fp.Pos), "FetchProof is called with ("+short(fmt.Sprint(fp.Args))+") or its error is unchecked")
+			fromOK := len(fp.Args) == 3 && fp.Args[0] == ctx && fp.Args[2] == subT && ((hasLatest && fp.Args[1] == latest) || (!hasLatest && (fp.Args[1].Kind == "zero" || fp.Args[1].Kind == "structval")))
+			r.Check(fromOK && okBefore(s, *fp, u.Seq), "C13.b", fnFeedOnce+" | proof requested from exactly the witness's latest to the submitted checkpoint", w.pos(fp.Pos), "FetchProof is called with ("+short(fmt.Sprint(fp.Args))+") or its error is unchecked")
 		case (proof.Kind == "varargs" && len(proof.Args) == 0) || proof.Kind == "nil" || proof.Kind == "alloc":
-			// empty literal: only when sizes and roots are equal
 			eqSize := hasLatest && implies(s.Facts, "==", mk("field", "Size", 0, nil, latest), subSize, true)
 			eqRoot := false
-			for _, be := range calls(s, cBytesEq) {
+			for _, be := range calls(att, cBytesEq) {
 				if k, v, _ := boolFact(s, be.Res); k && v && len(be.Args) == 2 && hasLatest {
 					lh := mk("field", "Hash", 0, nil, latest)
 					if (be.Args[0] == lh && be.Args[1] == subHash) || (be.Args[1] == lh && be.Args[0] == subHash) {
@@ -236,77 +198,27 @@ func ruleFeeder(w *World, r *Run) {
 					}
 				}
 			}
-			r.Check(eqSize && eqRoot, "C13.b", cl.String()+" | empty proof only for an identical checkpoint", w.pos(u.Pos), "an empty proof is submitted on a path that did not establish equal sizes and equal roots; path: "+pathString(e, s))
+			r.Check(eqSize && eqRoot, "C13.b", fnFeedOnce+" | empty proof only for an identical checkpoint", w.pos(u.Pos), "an empty proof is submitted on a path that did not establish equal sizes and equal roots; path: "+pathString(e, s))
 		default:
-			r.Fail("C13.b", cl.String()+" | proof provenance", w.pos(u.Pos), "proof argument "+short(proof.String())+" is neither FetchProof's result nor the empty proof")
+			r.Fail("C13.b", fnFeedOnce+" | proof provenance", w.pos(u.Pos), "proof argument "+short(proof.String())+" is neither FetchProof's result nor the empty proof")
 		}
 		// ---- C13.c NEVER-WHEN-AHEAD
 		if hasLatest {
 			notAhead := implies(s.Facts, "<", subSize, mk("field", "Size", 0, nil, latest), false)
-			r.Check(notAhead, "C13.c", cl.String()+" | never submits when the witness is ahead", w.pos(u.Pos), "Update is reachable although the witness's size may exceed the submitted size; path: "+pathString(e, s))
+			r.Check(notAhead, "C13.c", fnFeedOnce+" | never submits when the witness is ahead", w.pos(u.Pos), "Update is reachable although the witness's size may exceed the submitted size; path: "+pathString(e, s))
 		}
-		// ---- C13.e: result cell
-		stores := 0
-		for _, ev := range eventsOfKind(s, "store") {
-			if ev.Recv == retCell {
-				stores++
-				r.Check(ev.Args[0] == res(u, 0), "C13.e", cl.String()+" | result cell = what Update returned", w.pos(ev.Pos), "the result cell is filled with "+short(ev.Args[0].String()))
-			}
-		}
-		if ret.Kind == "nil" {
-			nOK++
-			r.Check(stores == 1 && okBefore(s, u, 0), "C13.e", cl.String()+" | success = Update accepted, result recorded", w.pos(s.RetPos), "attempt reports success without Update's error being nil or without recording the returned checkpoint")
+		// ---- C13.d/e: attempt result and FeedOnce's result
+		if opRet.Kind == "nil" {
+			r.Check(okBefore(s, u, 0), "C13.e", fnFeedOnce+" | attempt succeeds only when Update was accepted", w.pos(u.Pos), "an attempt reports success without Update's error being nil")
 		} else {
-			r.Check(neverNil(ret) && failed(s, u) && !(ret.Kind == "call" && ret.Name == cPermanent), "C13.d", cl.String()+" | failed Update is retried", w.pos(s.RetPos), "a failed Update is reported as "+short(ret.String()))
+			r.Check(neverNil(opRet) && failed(s, u) && !(opRet.Kind == "call" && opRet.Name == cPermanent), "C13.d", fnFeedOnce+" | failed Update is retried", w.pos(u.Pos), "a failed Update is reported as "+short(opRet.String()))
+		}
+		if success {
+			nOK++
+			r.Check(s.Rets[0] == res(u, 0) && okBefore(s, u, 0), "C13.e", fnFeedOnce+" | returns the cosigned checkpoint the witness returned", w.pos(s.RetPos), "FeedOnce's success value is "+short(s.Rets[0].String())+", not what Update returned")
 		}
 	}
-	if nUpd < 2 || nAhead < 1 || nOK < 1 {
-		r.Undecided("C13.b", cl.String()+" | anchors", "", fmt.Sprintf("vacuity floor: %d update paths, %d ahead paths, %d success paths", nUpd, nAhead, nOK))
+	if nSub == 0 || nUpd < 2 || nAhead < 1 || nOK < 1 {
+		r.Undecided("C13.b", fnFeedOnce+" | anchors", "", fmt.Sprintf("vacuity floor: %d submitting paths, %d update paths, %d ahead paths, %d success paths", nSub, nUpd, nAhead, nOK))
 	}
-
-	// ---- C13.a VERIFY-BEFORE-SUBMIT and C13.e in FeedOnce
-	fsums, fe, ok := exploreOpaque(w, r, "C13.a", fnFeedOnce, 4, 1, fnSubmit)
-	if !ok {
-		return
-	}
-	fo := w.fn(fnFeedOnce)
-	fctx, fopts := paramN(fo, 0), paramN(fo, 1)
-	nSub := 0
-	for _, s := range fsums {
-		for _, sc := range calls(s, fnSubmit) {
-			nSub++
-			var pc *Event
-			for _, pe := range calls(s, cParse) {
-				pe := pe
-				if pe.Seq < sc.Seq && len(pe.Args) == 4 && pe.Args[0] == sc.Args[1] && okBefore(s, pe, sc.Seq) {
-					pc = &pe
-				}
-			}
-			good := pc != nil && pc.Args[1] == mk("field", "LogOrigin", 0, nil, fopts) && pc.Args[2] == mk("field", "LogSigVerifier", 0, nil, fopts) && (pc.Args[3].Kind == "nil" || len(pc.Args[3].Args) == 0)
-			if good {
-				good = sc.Args[0] == fctx && sc.Args[3] == fopts && sc.Args[2] == mk("deref", "", 0, nil, res(*pc, 0))
-			}
-			if good {
-				// the bytes come from FetchCheckpoint of this cycle
-				good = sc.Args[1].Kind == "call" && sc.Args[1].Name == "dyn" && sc.Args[1].Args[1] == mk("field", "FetchCheckpoint", 0, nil, fopts)
-			}
-			r.Check(good, "C13.a", fnFeedOnce+" | submits only bytes that verified under the log's key and origin", w.pos(sc.Pos), "submitToWitness is reached with bytes that were not successfully parsed under opts.LogOrigin/opts.LogSigVerifier, or with a different parsed checkpoint; path: "+pathString(fe, s))
-		}
-		if len(s.Rets) == 2 && s.Rets[1].Kind == "nil" {
-			sc := calls(s, fnSubmit)
-			r.Check(len(sc) == 1 && s.Rets[0] == res(sc[0], 0) && okBefore(s, sc[0], 0), "C13.e", fnFeedOnce+" | returns the cosigned checkpoint the witness returned", w.pos(s.RetPos), "FeedOnce's success value is "+short(s.Rets[0].String()))
-		}
-	}
-	if nSub == 0 {
-		r.Undecided("C13.a", fnFeedOnce, "", "no submission found")
-	}
-}
-
-func typeOfFV(fn *ssa.Function, name string) types.Type {
-	for _, fv := range fn.FreeVars {
-		if fv.Name() == name {
-			return fv.Type()
-		}
-	}
-	return nil
 }
